@@ -740,17 +740,22 @@ func (m *LinearBlockMetadata) findSuballocation(offset int) (*Suballocation, err
 
 	// Check first vector
 	firstVector := *m.accessSuballocationsFirst()
-	out, found := sort.Find(len(firstVector), func(virtualIndex int) int {
+	virtualLen := len(firstVector) - m.firstNullItemsBeginCount
+	out, found := sort.Find(virtualLen, func(virtualIndex int) int {
 		index := virtualIndex + m.firstNullItemsBeginCount
 		return offset - firstVector[index].Offset
 	})
 	if found {
-		return &(firstVector[out]), nil
+		return &(firstVector[out+m.firstNullItemsBeginCount]), nil
 	}
 
 	if m.secondVectorMode != SecondVectorModeEmpty {
 		secondVector := *m.accessSuballocationsSecond()
 		out, found = sort.Find(len(secondVector), func(index int) int {
+			if m.secondVectorMode == SecondVectorModeDoubleStack {
+				// The upper stack is sorted by descending offset
+				return secondVector[index].Offset - offset
+			}
 			return offset - secondVector[index].Offset
 		})
 		if found {
